@@ -119,10 +119,15 @@ CSRMatrix* extended_interpolation(CSRMatrix* A, CSRMatrix* S,
             }
             else
             {
-                // every connection that is not strong is lumped into the
-                // diagonal (as the distributed routine does), also one to a
-                // coarse point reached at distance two
-                if (num_variables == 1 || variables[i] == variables[col])
+                // a connection that is not strong: if its column is one of
+                // the row's interpolation points (a coarse point reached at
+                // distance two), it belongs to that point's weight, as in the
+                // distributed routine; otherwise it is lumped into the diagonal
+                if (states[col] == Selected && pos[col] >= row_start)
+                {
+                    P->vals[pos[col]] += A->vals[j];
+                }
+                else if (num_variables == 1 || variables[i] == variables[col])
                 {
                     weak_sum += A->vals[j];
                 }
